@@ -381,7 +381,7 @@ std::string run_case(const std::vector<std::string>& w)
         } else if (name == "recon") {
             if (!S.invalidated.empty()) {
                 CBlockIndex* target = S.invalidated.back(); S.invalidated.pop_back();
-                { LOCK(cs_main); S.cst().ResetBlockFailureFlags(target); }
+                { LOCK(cs_main); S.cst().ResetBlockFailureFlags(target); S.cm().RecalculateBestHeader(); }   // as the reconsiderblock RPC does
                 BlockValidationState st;
                 S.cst().ActivateBestChain(st);
                 S.drain();
